@@ -672,7 +672,7 @@ func (c *FnCtx) checkFrame(st *State, reach Term, env *Env) {
 				excl = append(excl, not(eq(p, t.ref)))
 			}
 		}
-		if k == nextKey || k == ctxDoneKey || strings.HasPrefix(k, "GH_") || strings.HasPrefix(k, "SEEN_") {
+		if k == nextKey || k == ctxDoneKey || k == chLenKey || strings.HasPrefix(k, "GH_") || strings.HasPrefix(k, "SEEN_") {
 			continue
 		}
 		body := implies(and(append([]Term{gt(p, tZero), lt(p, c.next(c.entry))}, excl...)...), eq(sel(cur, p), sel(old, p)))
@@ -826,7 +826,7 @@ func ghostNamesOf(ps *ParamSpec) []string {
 // contents; ghost state changes only as the callee's contract says.
 func (c *FnCtx) havocEverything(st *State) {
 	for k, v := range st.heaps {
-		if strings.HasPrefix(k, "GH_") || k == nextKey || k == ctxDoneKey || strings.HasPrefix(k, "SEEN_") {
+		if strings.HasPrefix(k, "GH_") || k == nextKey || k == ctxDoneKey || k == chLenKey || k == chLenKey || strings.HasPrefix(k, "SEEN_") {
 			continue
 		}
 		nv := c.fresh("hv_"+k, v.Sort)
